@@ -14,7 +14,7 @@ from ..cfg import CFG
 from ..core import (AnalysisError, FuncInfo, ancestors, ap, atoms, call_attr, calls, enclosing_fn, enclosing_stmt,
                     facts, find_calls, handler_catches_all, handler_names, handler_reraises, norm, parent, src, stores,
                     try_contexts, walk, FUNC_TYPES)
-from .common import (call_index, store_index, cfg_node_calls, cfg_node_expr, cfg_node_fallible, cfg_search, class_methods_reachable,
+from .common import (call_index, store_index, is_logging_call, cfg_node_calls, cfg_node_expr, cfg_node_fallible, cfg_search, class_methods_reachable,
                      is_benign_call, loops_over, top_fn)
 
 ADDONS = "hippolyzer/lib/proxy/addons.py"
@@ -101,6 +101,37 @@ def _conditional_on_swallow_flag(h: ast.ExceptHandler, stop) -> Tuple[bool, str]
     return True, ""
 
 
+def _eager_uses(h: ast.ExceptHandler, names: Set[str], stop) -> List[ast.AST]:
+    """Expressions in handler `h` that eagerly run code of the objects named in `names` (the values
+    handed to the hook): %-formatting, f-strings, str()/repr()/format(), method calls on them, or
+    passing them to a non-logging call.  Lazy logging arguments (`log("%r", x)`) are benign: logging
+    swallows formatting errors.  Uses inside a nested swallowing try are contained."""
+    def mentions(e):
+        return any(isinstance(n, ast.Name) and n.id in names for n in ast.walk(e))
+    out = []
+    for x in walk(h):
+        bad = False
+        if isinstance(x, ast.BinOp) and isinstance(x.op, ast.Mod) and mentions(x.right) and \
+                (isinstance(x.left, (ast.Constant, ast.JoinedStr)) or not mentions(x.left)):
+            bad = True
+        elif isinstance(x, ast.FormattedValue) and mentions(x.value):
+            bad = True
+        elif isinstance(x, ast.Call) and not is_logging_call(x):
+            recv_tainted = isinstance(x.func, ast.Attribute) and mentions(x.func.value)
+            arg_tainted = any(mentions(a) for a in x.args) or any(mentions(k.value) for k in x.keywords)
+            bad = recv_tainted or arg_tainted
+        if bad:
+            contained = False
+            for tc in try_contexts(x, h):
+                if tc.section == "body" and tc.node is not parent(h) and any(
+                        handler_catches_all(hh) and handler_reraises(hh) == "never" for hh in tc.node.handlers):
+                    contained = True
+            if not contained:
+                out.append(x)
+    # report outermost expressions only
+    return [x for x in out if not any(x is not y and any(z is x for z in ast.walk(y)) for y in out)]
+
+
 def _guard_of(c, stop) -> Optional[ast.ExceptHandler]:
     for tc in try_contexts(c, stop):
         if tc.section == "body":
@@ -155,6 +186,15 @@ def r1(ctx):
         if h is not None:
             ok, why = _conditional_on_swallow_flag(h, tch.node)
             ctx.ob(R, f"{tch.qual}: handler of {norm(c)} re-raises only when not swallowing", ok, ctx.w(tch, h), why)
+            # the handler itself must not be able to fail on the values handed to the hook
+            passed = {n.id for a in list(c.args) + [k.value for k in c.keywords] for n in ast.walk(a)
+                      if isinstance(n, ast.Name)}
+            eager = _eager_uses(h, passed, tch.node)
+            for x in eager:
+                ctx.ob(R, f"{tch.qual}: handler evaluates `{norm(x)}` on the hook's arguments", False, ctx.w(tch, x),
+                       "formatting / calling into hook arguments inside the except block can raise (repr of a message "
+                       "parses it lazily): the exception escapes the dispatch point; pass them as lazy logging args")
+            ctx.ob(R, f"{tch.qual}: handler of {norm(c)} cannot fail on the hook's arguments", not eager, ctx.w(tch, h))
     for c in inner:
         d = enclosing_fn(c)
         name = getattr(d, "name", "<lambda>")
